@@ -722,9 +722,9 @@ def mutators():
 # design check
 # ----------------------------------------------------------------------------------------------------------------------
 QUICK_MC = ["Eth2WrapMC_S_duties_q.cfg", "Eth2WrapMC_S_route_q.cfg", "Eth2WrapMC_S_prep_q.cfg", "Eth2WrapMC_S_submit.cfg",
-            "Eth2WrapMC_S_errs.cfg", "Eth2WrapMC_S_live.cfg", "Eth2WrapMC_L_connect_q.cfg", "Eth2WrapMC_L_errcl_q.cfg",
+            "Eth2WrapMC_S_errs.cfg", "Eth2WrapMC_S_live_q.cfg", "Eth2WrapMC_L_connect_q.cfg", "Eth2WrapMC_L_errcl_q.cfg",
             "Eth2WrapMC_L_valcache_q.cfg", "Eth2WrapMC_L_dutiescache.cfg", "Eth2WrapMC_L_ascoded_dutiescache.cfg", "Eth2WrapMC_L_mix.cfg",
-            "Eth2WrapMC_L_live.cfg", "Eth2WrapMC_V_all_q.cfg", "Eth2WrapMC_V_nil_q.cfg", "Eth2WrapMC_V_live_q.cfg"]
+            "Eth2WrapMC_L_live_q.cfg", "Eth2WrapMC_V_all_q.cfg", "Eth2WrapMC_V_nil_q.cfg", "Eth2WrapMC_V_live_q.cfg"]
 THOROUGH_MC = ["Eth2WrapMC_S_duties.cfg", "Eth2WrapMC_S_duties2.cfg", "Eth2WrapMC_S_route.cfg", "Eth2WrapMC_S_prep.cfg",
                "Eth2WrapMC_S_submit.cfg", "Eth2WrapMC_S_errs.cfg", "Eth2WrapMC_S_live.cfg", "Eth2WrapMC_S_ascoded_duties.cfg",
                "Eth2WrapMC_S_ascoded_route.cfg", "Eth2WrapMC_L_connect.cfg", "Eth2WrapMC_L_valcache.cfg", "Eth2WrapMC_L_dutiescache.cfg",
@@ -763,10 +763,10 @@ def design_check(o, tier, seed):
         mains, controls = [], ()
     n = 600 if thorough else 60
     jobs = [("Eth2WrapGen", cfg, dict(simulate="num=%d" % n, depth=300, seed=seed + k, workers=1)) for k, (_, cfg, _) in enumerate(GEN)]
-    jobs += [("Eth2WrapMC", c, dict(workers=4 if thorough else 2)) for c in mains]
-    jobs += [("Eth2WrapMC", c, dict(workers=1)) for c, _, _ in controls]
+    jobs += [("Eth2WrapMC", c, dict(workers=4 if thorough else 2, heap="3g")) for c in mains]
+    jobs += [("Eth2WrapMC", c, dict(workers=1, heap="2g")) for c, _, _ in controls]
     dirs = [vlib.scratch(o.pid, FAMILY) for _ in jobs]
-    ex = ThreadPoolExecutor(max_workers=8 if thorough else 12)
+    ex = ThreadPoolExecutor(max_workers=6 if thorough else 12)
     futs = [ex.submit(vlib.tlc, o.pid, FAMILY, j[0], j[1], timeout=1700, sdir=d, **j[2]) for j, d in zip(jobs, dirs)]
     hists = {}
     for (m, cfg, _), f in zip(GEN, futs[:len(GEN)]):
@@ -822,6 +822,17 @@ def observed(tr):
 
 def stage(o, tier, seed):
     """Run the Eth2Wrap family as a stage of a check."""
+    # shared machine: the many small JVMs of this family do not need vlib's default heap of 8g each
+    old = os.environ.get("VERIF_TLC_HEAP")
+    os.environ["VERIF_TLC_HEAP"] = old or "3g"
+    try:
+        _stage(o, tier, seed)
+    finally:
+        if old is None:
+            os.environ.pop("VERIF_TLC_HEAP", None)
+
+
+def _stage(o, tier, seed):
     t0 = time.time()
     thorough = tier == "thorough"
     env = exec_env(o.pid)
@@ -881,6 +892,8 @@ def main(tier="quick", seed=1, pid="GETH2WRAP"):
         log("  " + txt)
     if o.violations:
         return 1
+    for m in o.mc_runs:
+        log("[%s]   %s: %d distinct / %d generated states, depth %d, %.0fs" % (pid, m["config"], m["distinct"], m["generated"], m["depth"], m["wall_s"]))
     log("[%s] OK tier=%s seed=%s: %d MC states, %d traces validated, %d self-test controls, %.0fs"
         % (pid, tier, seed, o.states, o.traces, len(o.selftests), time.time() - o.t0))
     return 0
